@@ -11,9 +11,10 @@
 (* Ideal: a struct may derive Hash/Eq/Ord iff every member type implements *)
 (* them: no f64 and no hash container anywhere it reaches.                 *)
 (* As built:                                                               *)
-(*  - predicate(member): peel Vec layers; a hash map / set or f64 there    *)
-(*    says No.  It does not look inside Arc or btree containers (blind     *)
-(*    spot: a double as btree map value still derives -- recorded finding).*)
+(*  - predicate(member): a hash map / set or f64 anywhere inside the       *)
+(*    member type says No.  Before fix 280118d it peeled Vec layers only   *)
+(*    and did not look inside Arc or btree containers (K = "heo-old": a    *)
+(*    double as btree map value still derived).                            *)
 (*  - otherwise every struct the member types mention is decided           *)
 (*    recursively; a struct met again while it is being decided is         *)
 (*    "delayed" (decided by whoever closes the cycle); a struct that finds *)
@@ -39,12 +40,14 @@ ReachSet(g, frontier, seen) ==
 Reach(g, x) == ReachSet(g, {x}, {x})                \* x and everything it mentions, transitively
 \* K = "heo": #[derive(Hash, Eq, Ord)] -- f64 and hash containers implement none of them;
 \* K = "po":  #[derive(PartialOrd)]     -- hash containers do not implement it (the second instance of the same plugin)
-BadMember(K, m) == (K = "heo" /\ m.to = "f64") \/ m.via = "hmap"
+\* K = "heo-old": "heo" with the predicate as it was before it looked inside btree containers and Arc
+BadMember(K, m) == (K \in {"heo", "heo-old"} /\ m.to = "f64") \/ m.via = "hmap"
 IdealDerive(K, g, x) == \A y \in Reach(g, x) : \A i \in DOMAIN g[y] : ~BadMember(K, g[y][i])
 
 \* --------------------------------------------------------------- as built
 Pred(K, m) == IF m.via = "hmap" THEN "No"
-              ELSE IF K = "heo" /\ m.via \in {"direct", "list"} /\ m.to = "f64" THEN "No"
+              ELSE IF K = "heo" /\ m.to = "f64" THEN "No"
+              ELSE IF K = "heo-old" /\ m.via \in {"direct", "list"} /\ m.to = "f64" THEN "No"
               ELSE "GoOn"
 GraphTargets(g, x, EdgeVias) == {g[x][i].to : i \in {j \in DOMAIN g[x] : g[x][j].via \in EdgeVias}} \ Leaves
 RECURSIVE GReach(_, _, _, _)
@@ -84,6 +87,6 @@ AsBuilt(K, g, EV, order) == LET c == Run(K, g, EV, order, 1, [n \in Nodes(g) |->
 \* does the emitted code compile as far as these derives go?  a struct that derives must hold only members that implement them
 MemberImpl(K, g, d, m) == ~BadMember(K, m) /\ (m.to \in Leaves \/ d[m.to])
 Compiles(K, g, d) == \A x \in Nodes(g) : d[x] => \A i \in DOMAIN g[x] : MemberImpl(K, g, d, g[x][i])
-\* the blind spot of the predicate: an f64 it cannot see
+\* the blind spot of the predicate before the fix: an f64 it could not see
 Blind(g) == \E x \in Nodes(g) : \E i \in DOMAIN g[x] : g[x][i].to = "f64" /\ g[x][i].via \in {"arc", "bmap"}
 =============================================================================
